@@ -280,10 +280,24 @@ def correspond(ctx):
     if len(runs) != len(lines):
         c.mismatches.append({"kind": "traced-runs-missing", "runs": len(runs), "lines": len(lines)})
     statics = {x["line"]: x for x in tcases if x["k"] == "static"}
+    expected = c15_projects.expected_horizons(ctx.seed)
     items, meta = [], []
     for ln, st in sorted(statics.items()):
         days = [x for x in tcases if x["k"] == "gwday" and x["line"] == ln]
         route = 2 if st["ptf"] else 0
+        # tie the soil file readers to the model's inputs: what the probe shows per horizon = the generated file's values
+        # (stone content: file percentage / 100, one binary64 division)
+        msid = re.search(r"soilId=(\S+)", lines[ln][0])
+        want = expected.get(msid.group(1)) if msid else None
+        got = [(h["tex"], h["ld"], float.fromhex(h["c"]), float.fromhex(h["stein"]), h["ukt"], float.fromhex(h["fka"]),
+                float.fromhex(h["wp"]), float.fromhex(h["gpv"])) for h in st["hz"]]
+        if want is None or got != want:
+            c.mismatches.append({"kind": "soil-file-reader", "line": lines[ln][0], "reader": st.get("soilext", "?"),
+                                 "fields": "(texture, LD, Corg, stone fraction, UKT, FKA, WP, GPV) per horizon",
+                                 "read": got, "file": want})
+        c.cases += len(got)
+        for h in st["hz"]:
+            c.bump("stone-fraction=%g" % float.fromhex(h["stein"]))
         kinds = ["explicit" if float.fromhex(h["fka"]) > 0 else "table" for h in st["hz"]]
         rname = "ptf%s" % st["ptf"] if st["ptf"] else (kinds[0] if len(set(kinds)) == 1 else "mixed-" + kinds[0] + "-top")
         hz = ["(%s%%char, %d%%Z, %s, %s, %d%%Z, (%s, %s, %s))" % (_tex(h["tex"]), h["ld"], fl(h["c"]), fl(h["stein"]), h["ukt"],
